@@ -83,6 +83,10 @@ def make_probe_agents(ctx) -> Dict[str, type]:
             rr.setstate(prng.getstate())
             super().__init__(agent_id=agent_id, prng=rr, simulator=simulator, name=name, logger=logger)
 
+        def setup(self, settings, accessible_markets_ids, *a, **k):
+            mon.ext.setdefault("built_settings", {})[self.name] = dict(settings)
+            super().setup(settings, accessible_markets_ids, *a, **k)
+
         def submit_orders(self, markets):
             st = market_state(self, markets)
             self.prng.log = []
